@@ -1,8 +1,8 @@
 (* C18 — Mesh surgery keeps geometry valid and carries tags to the same entities: the index maps.
    Only statements; proofs live in Proofs.C18_SurgeryProofs, the tie to the source in Dyn.C18_Tie.
    gen_* (child templates, reference-cell coordinates, _reix / restrict plumbing) are REGENERATED from
-   skfem/mesh/*.py and skfem/refdom.py on every run.  join (duplicate-vertex merge), extrusion and the
-   coordinate transforms of real meshes are covered by correspondence / oracle (see vlib/props/c18.py). *)
+   skfem/mesh/*.py and skfem/refdom.py on every run.  The coordinate transforms of real meshes, the retagging
+   of remove_duplicate_nodes, morphed/oriented/trace are covered by correspondence / oracle (vlib/props/c18.py). *)
 From Coq Require Import List Arith Bool ZArith Sorted.
 Import ListNotations.
 Require Import Model.C18_Surgery Proofs.C18_SurgeryProofs Gen.C18Gen Dyn.C18_Tie.
@@ -159,6 +159,44 @@ Theorem C18_extrude_spec :
       else nth k (nth (i - length t) t []) 0 + nv + l * nv.
 Proof. exact extrude_t_spec. Qed.
 Print Assumptions C18_extrude_spec.
+
+(* split_spec, facet carry-over of to_meshtri: the code scans ONE shared iterator over the new facet table for all
+   tagged facets of a name.  For strictly lexicographically sorted facet tables and any duplicate-free tag all of
+   whose facets are still facets of the triangle mesh, the scan never runs dry (no StopIteration) and the j-th number
+   returned designates the new facet with the same vertex pair as the j-th smallest tagged facet *)
+Theorem C18_to_meshtri_boundaries :
+  forall (OF NF : mat nat) (b : list nat),
+    StronglySorted lex_lt OF -> StronglySorted lex_lt NF -> NoDup b -> Forall (fun k => k < length OF) b ->
+    (forall k, In k b -> In (nth k OF []) NF) ->
+    exists idx, gen_carry_boundary OF NF b = Some idx /\ length idx = length b /\
+                forall j, j < length b -> nth (nth j idx 0) NF [] = nth (nth j (sort_nat b) 0) OF [].
+Proof. intros OF NF b. rewrite gen_carry_boundary_is_model. exact (carry_boundary_spec OF NF b). Qed.
+Print Assumptions C18_to_meshtri_boundaries.
+
+(* join_spec / remove_duplicate_nodes (vertices as coordinate tuples, after the code's rounding): the merged point
+   table has pairwise distinct columns and exactly the old coordinate tuples; every vertex keeps its coordinates;
+   two vertices get the same new number iff they are coordinate-equal; every cell slot keeps its coordinates; in
+   m1 + m2 the cells of m1 come first, those of m2 follow, each with its own vertex coordinates *)
+Theorem C18_join_spec :
+  (forall (p : list key),
+     NoDup (gen_dedupe_p p) /\ (forall k, In k (gen_dedupe_p p) <-> In k p) /\
+     (forall v, v < length p -> nth v (dedupe_inverse p) 0 < length (gen_dedupe_p p) /\
+                                nth (nth v (dedupe_inverse p) 0) (gen_dedupe_p p) [] = nth v p []) /\
+     (forall v w, v < length p -> w < length p ->
+        (nth v (dedupe_inverse p) 0 = nth w (dedupe_inverse p) 0 <-> nth v p [] = nth w p []))) /\
+  (forall (p : list key) (t : mat nat) r c,
+     r < length t -> c < length (nth r t []) -> nth c (nth r t []) 0 < length p ->
+     nth (nth c (nth r (gen_dedupe_t p t) []) 0) (gen_dedupe_p p) [] = nth (nth c (nth r t []) 0) p []) /\
+  (forall (p1 p2 : list key) (t1 t2 : mat nat) (nt1 r c : nat),
+     length t1 = length t2 -> r < length t1 -> Forall (fun row => length row = nt1) t1 ->
+     (c < nt1 -> nth c (nth r t1 []) 0 < length p1 ->
+        nth (nth c (nth r (gen_join_t p1 p2 t1 t2) []) 0) (gen_join_p p1 p2) [] = nth (nth c (nth r t1 []) 0) p1 []) /\
+     (forall c2, c = nt1 + c2 -> c2 < length (nth r t2 []) -> nth c2 (nth r t2 []) 0 < length p2 ->
+        nth (nth c (nth r (gen_join_t p1 p2 t1 t2) []) 0) (gen_join_p p1 p2) [] = nth (nth c2 (nth r t2 []) 0) p2 [])).
+Proof.
+  split; [exact dedupe_spec|]. split; [exact dedupe_cells | exact join_cells].
+Qed.
+Print Assumptions C18_join_spec.
 
 (* transform_spec: scaled multiplies every simplex determinant by the product of the factors, translated leaves it
    unchanged, mirrored (p - 2 (n.(p - p0)) n) multiplies it by 1 - 2 n.n, i.e. by -1 for the unit normal the code
